@@ -645,6 +645,21 @@ func RunC07(r *mon.Run) {
 		r.Inconclusive("harness: " + err.Error())
 		return
 	}
+	// the same rules on a mux with StatsOption + interceptors and on a mux
+	// whose registry is a re-ordered second build of the descriptors
+	envs := map[string]*env{"": envD}
+	for _, kind := range []string{muxWithOptions, muxSkew} {
+		if envs[kind], err = buildDynamic(dyn, kind); err != nil {
+			r.Inconclusive("harness: " + err.Error())
+			return
+		}
+	}
+	envRopt, err := buildTestpb(muxWithOptions)
+	if err != nil {
+		r.Inconclusive("harness: " + err.Error())
+		return
+	}
+	nCase := 0
 	nIdx := r.Pick(5, 60)
 	for ri, rule := range append(append([]RuleSpec(nil), dyn...), real...) {
 		p, err := newPlan(rule)
@@ -663,7 +678,18 @@ func RunC07(r *mon.Run) {
 				return
 			}
 			if c != nil {
-				apply(r, c, execCase(e, c))
+				nCase++
+				ee := e
+				switch kind := []string{"", "", muxWithOptions, muxSkew}[nCase%4]; {
+				case rule.Svc != "" && kind != "":
+					ee, c.Mux = envRopt, muxWithOptions
+				case rule.Svc == "" && kind != "":
+					ee, c.Mux = envs[kind], kind
+				}
+				if c.Mux != "" {
+					c.Via += ",mux=" + c.Mux
+				}
+				apply(r, c, execCase(ee, c))
 			}
 		}
 		for vi, v := range p.vars {
